@@ -17,7 +17,7 @@ Arguments create_tail : simpl never.
 (** ** extension of a run by effects that do not touch manifests *)
 Definition blob_only (e : effect) : Prop :=
   match e with
-  | EAddDebris _ | ERmDebris _ | ERenTemp _ _ | ERenPartial _ _ | ERmBlob _ => True
+  | EAddDebris _ | ERmDebris _ | ERenTemp _ _ | ERenPartial _ _ | ERmBlob _ | EFixBlob _ _ | EFixPartial _ => True
   | ETruncMan _ | EWriteMan _ _ | ERmMan _ => False
   end.
 
@@ -174,6 +174,31 @@ Section More.
     eapply Ext_trans; [|apply IH]. destruct (referenced (rs r) d); [apply Ext_refl|].
     destruct (bget (dhex d) (rs r)); [apply Ext_emit; [apply Ext_refl | exact I] | apply Ext_refl].
   Qed.
+
+  Lemma fix_fold_ext ds : forall r, Ext r (fold_left fix_step ds r).
+  Proof.
+    induction ds as [|d ds IH]; intros r; cbn [fold_left]; [apply Ext_refl|].
+    apply (Ext_trans _ (fix_step r d)); [|apply IH].
+    destruct d; cbn; try apply Ext_refl; apply Ext_emit; try apply Ext_refl; exact I.
+  Qed.
+
+  Lemma fix_blobs_ext r : Ext r (fix_blobs r).
+  Proof. apply fix_fold_ext. Qed.
+
+  Lemma rm_debris_ext ds : forall r, Ext r (fold_left (fun r d => emit r (ERmDebris d)) ds r).
+  Proof.
+    induction ds as [|d ds IH]; intros r; cbn; [apply Ext_refl|].
+    apply (Ext_trans _ (emit r (ERmDebris d))); [apply Ext_emit; [apply Ext_refl | exact I] | apply IH].
+  Qed.
+
+  Lemma startup_rest_ext r : Ext r (startup_rest r).
+  Proof.
+    unfold startup_rest. destruct (has_unreadable (rs r)); [apply Ext_refl|].
+    eapply Ext_trans; [apply rm_debris_ext | apply delete_unused_ext].
+  Qed.
+
+  Lemma op_startup_ext s : Ext (init s) (fst (op_startup s)).
+  Proof. unfold op_startup. cbn [fst]. eapply Ext_trans; [apply fix_blobs_ext | apply startup_rest_ext]. Qed.
 
   (** ** blobs only grow while nothing is removed *)
   Definition no_rm (e : effect) : Prop := match e with ERmBlob _ => False | _ => True end.
@@ -355,7 +380,7 @@ Section More.
     HM s -> (forall n m, In (EWriteMan n (Readable m)) es -> has_model_b m = true) -> HM (apply_list s es).
   Proof.
     induction es as [|e es IH]; intros s H Hw; [exact H|]. rewrite apply_list_cons. apply IH; [|intros n m Hi; apply (Hw n m); right; exact Hi].
-    intros n m Hl. unfold listed in Hl. destruct e as [d|d|h c|h c|h|n'|n' ms|n']; cbn in Hl; try (apply (H n m Hl)).
+    intros n m Hl. unfold listed in Hl. destruct e as [d|d|h c|h c|h|n'|n' ms|n'|h c|h]; cbn in Hl; try (apply (H n m Hl)).
     - apply (In_aset name_eqb name_eqb_spec) in Hl as [[_ [=]]|[_ Hl]]. apply (H n m Hl).
     - apply (In_aset name_eqb name_eqb_spec) in Hl as [[-> <-]|[_ Hl]]; [apply (Hw n' m); left; reflexivity | apply (H n m Hl)].
     - apply (In_adel name_eqb name_eqb_spec) in Hl as [Hl _]. apply (H n m Hl).
@@ -502,12 +527,7 @@ Section More.
       intros Hi. apply (Ext_no_write _ _ _ _ (delete_unused_ext _ _)) in Hi. unfold write_manifest in Hi. cbn in Hi.
       rewrite <- app_assoc in Hi. apply in_app_iff in Hi as [Hi|[Hi|[Hi|[]]]];
         [destruct (Ext_no_write _ _ _ _ (Ext_trans _ _ _ Hd Hv) Hi) | discriminate | injection Hi as _ <-; exact Ho].
-    - (* start-up *) unfold op_startup. destruct (has_unreadable s); cbn; [intros []|].
-      intros Hi. apply (Ext_no_write _ _ _ _ (delete_unused_ext _ _)) in Hi.
-      revert Hi. generalize (debris s). intros ds.
-      assert (He : forall r, Ext r (fold_left (fun r d => emit r (ERmDebris d)) ds r)).
-      { induction ds as [|d ds IH]; intros r; cbn; [apply Ext_refl|]. apply (Ext_trans _ (emit r (ERmDebris d))); [apply Ext_emit; [apply Ext_refl | exact I] | apply IH]. }
-      intros Hi. destruct (Ext_no_write _ _ _ _ (He (init s)) Hi).
+    - (* start-up *) intros Hi. destruct (Ext_no_write _ _ _ _ (op_startup_ext s) Hi).
   Qed.
 
   Lemma exec_HM s o : Inv s -> op_guard size_of s o = true -> HM s -> op_has_model o = true -> HM (exec size_of s o).
